@@ -166,6 +166,18 @@ func hasFeatureWithID(id b6.FeatureID, fbs []*featureBlock) bool {
 	return false
 }
 
+// sameNamespace returns true if the namespace code ns, read from a record
+// of the block from, is the namespace of the features of type t in the block
+// to. Codes index the namespace table of the file a block was read from, so
+// they can't be compared directly once blocks from several files, each with
+// its own table, have been merged into one world.
+func sameNamespace(from *featureBlock, ns Namespace, to *featureBlock, t b6.FeatureType) bool {
+	if from.NamespaceTable == to.NamespaceTable {
+		return ns == to.Namespaces[t]
+	}
+	return from.NamespaceTable.Decode(ns) == to.NamespaceTable.Decode(to.Namespaces[t])
+}
+
 func (f *FeaturesByID) FindLocationByID(id b6.FeatureID) (s2.LatLng, error) {
 	for _, fb := range f.features[b6.FeatureTypePoint] {
 		if ns, ok := fb.NamespaceTable.MaybeEncode(id.Namespace); ok && ns == fb.Namespaces[b6.FeatureTypePoint] {
@@ -668,28 +680,41 @@ func (f *FeaturesByID) FindAreasByPoint(id b6.FeatureID) b6.AreaFeatures {
 					var p FullPoint
 					p.Unmarshal(&fb.Namespaces, t.Data)
 					paths = p.Paths
+				case PointTagReferencesOnly:
+					// The point itself is in another index, eg the base of
+					// an overlay, but paths in this one pass through it
+					var r PointReferences
+					r.Unmarshal(&fb.Namespaces, t.Data)
+					paths = r.Paths
 				}
 			}
-			areas := make(map[Reference]struct{})
+			// An area reference is only meaningful together with the block
+			// it was read from, see sameNamespace
+			type areaReference struct {
+				from *featureBlock
+				area Reference
+			}
+			areas := make(map[areaReference]struct{})
 			var p Path
 			for _, path := range paths {
 				for _, pm := range f.features[b6.FeatureTypePath] {
 					_, ns := path.TypeAndNamespace.Split()
-					if pm.Namespaces[b6.FeatureTypePath] == ns {
+					if sameNamespace(fb, ns, pm, b6.FeatureTypePath) {
 						if b := pm.Map.FindFirstWithTag(path.Value, encoding.NoTag); len(b) > 0 {
 							p.Unmarshal(&pm.Namespaces, b)
 							for _, area := range p.Areas {
-								areas[area] = struct{}{}
+								areas[areaReference{pm, area}] = struct{}{}
 							}
 							break
 						}
 					}
 				}
 			}
-			for area := range areas {
+			for r := range areas {
+				area := r.area
 				for _, am := range f.features[b6.FeatureTypeArea] {
 					_, ns := area.TypeAndNamespace.Split()
-					if am.Namespaces[b6.FeatureTypeArea] == ns {
+					if sameNamespace(r.from, ns, am, b6.FeatureTypeArea) {
 						if a := f.newArea(am, area.Value); a != nil {
 							features = append(features, a)
 							break
@@ -738,14 +763,14 @@ func (f *FeaturesByID) fillPathSegments(point b6.FeatureID, path b6.FeatureID, s
 				pf := b6.WrapPhysicalFeature(f.newPathFromEncodedPath(fb, path.Value, &p), f)
 				previous := 0
 				for i := position - 1; i > 0; i-- {
-					if id, ok := p.Reference(i, fb.Strings); ok && f.isGraphNode(id) {
+					if id, ok := p.Reference(i, fb.Strings); ok && f.isGraphNode(fb, id) {
 						previous = i
 						break
 					}
 				}
 				next := n - 1
 				for i := position + 1; i < n-1; i++ {
-					if id, ok := p.Reference(i, fb.Strings); ok && f.isGraphNode(id) {
+					if id, ok := p.Reference(i, fb.Strings); ok && f.isGraphNode(fb, id) {
 						next = i
 						break
 					}
@@ -766,11 +791,11 @@ func (f *FeaturesByID) fillPathSegments(point b6.FeatureID, path b6.FeatureID, s
 // isGraphNode returns true if this point should be a node in the
 // network graph. We currently consider intersections and points with tags
 // as nodes.
-func (f *FeaturesByID) isGraphNode(point Reference) bool {
+func (f *FeaturesByID) isGraphNode(from *featureBlock, point Reference) bool {
 	paths := 0
 	for _, fb := range f.features[b6.FeatureTypePoint] {
 		_, ns := point.TypeAndNamespace.Split()
-		if fb.Namespaces[b6.FeatureTypePoint] == ns {
+		if sameNamespace(from, ns, fb, b6.FeatureTypePoint) {
 			t, ok := fb.Map.FindFirst(point.Value)
 			if ok {
 				switch t.Tag {
@@ -780,18 +805,18 @@ func (f *FeaturesByID) isGraphNode(point Reference) bool {
 					if len(p.Tags) > 1 { // The location of the point is itself a tag
 						return true
 					}
-					paths += f.countPaths(References{p.Path})
+					paths += f.countPaths(fb, References{p.Path})
 				case PointTagFull:
 					var p FullPoint
 					p.Unmarshal(&fb.Namespaces, t.Data)
 					if len(p.Tags) > 1 { // The location of the point is itself a tag
 						return true
 					}
-					paths += f.countPaths(p.Paths)
+					paths += f.countPaths(fb, p.Paths)
 				case PointTagReferencesOnly:
 					var r PointReferences
 					r.Unmarshal(&fb.Namespaces, t.Data)
-					paths += f.countPaths(r.Paths)
+					paths += f.countPaths(fb, r.Paths)
 				}
 				if paths > 1 {
 					return true
@@ -806,7 +831,7 @@ func (f *FeaturesByID) isGraphNode(point Reference) bool {
 // in the index. A point records a reference for each visit of each path
 // seen in the source data, including paths that were subsequently dropped
 // as invalid, neither of which make the point an intersection.
-func (f *FeaturesByID) countPaths(refs References) int {
+func (f *FeaturesByID) countPaths(from *featureBlock, refs References) int {
 	n := 0
 	for i, r := range refs {
 		if slices.Contains(refs[0:i], r) {
@@ -814,7 +839,7 @@ func (f *FeaturesByID) countPaths(refs References) int {
 		}
 		_, ns := r.TypeAndNamespace.Split()
 		for _, fb := range f.features[b6.FeatureTypePath] {
-			if fb.Namespaces[b6.FeatureTypePath] == ns && fb.Map.FindFirstWithTag(r.Value, encoding.NoTag) != nil {
+			if sameNamespace(from, ns, fb, b6.FeatureTypePath) && fb.Map.FindFirstWithTag(r.Value, encoding.NoTag) != nil {
 				n++
 				break
 			}
@@ -840,10 +865,26 @@ func (f *FeaturesByID) FindRelationsByFeature(id b6.FeatureID) b6.RelationFeatur
 			case b6.FeatureTypeRelation:
 				relations = f.fillRelationsFromRelation(fb, id.Value, relations)
 			}
-			break
+			// Keep going: once several indices have been merged, the
+			// namespace can be spread over more than one block
 		}
 	}
 	return ingest.NewRelationFeatureIterator(relations)
+}
+
+// appendRelation appends the relation r, read from a record of the block
+// from, looking for it in every block of relations in its namespace, since a
+// namespace can be spread over several blocks once indices have been merged.
+func (f *FeaturesByID) appendRelation(from *featureBlock, r Reference, relations []b6.RelationFeature) []b6.RelationFeature {
+	_, ns := r.TypeAndNamespace.Split()
+	for _, rm := range f.features[b6.FeatureTypeRelation] {
+		if sameNamespace(from, ns, rm, b6.FeatureTypeRelation) {
+			if relation := f.newRelation(rm, r.Value); relation != nil {
+				return append(relations, relation)
+			}
+		}
+	}
+	return relations
 }
 
 func (f *FeaturesByID) fillRelationsFromPoint(fb *featureBlock, id uint64, relations []b6.RelationFeature) []b6.RelationFeature {
@@ -858,12 +899,7 @@ func (f *FeaturesByID) fillRelationsFromPoint(fb *featureBlock, id uint64, relat
 				// is recorded once per membership.
 				continue
 			}
-			for _, rm := range f.features[b6.FeatureTypeRelation] {
-				if _, ns := r.TypeAndNamespace.Split(); ns == rm.Namespaces[b6.FeatureTypeRelation] {
-					relations = append(relations, f.newRelation(rm, r.Value))
-					break
-				}
-			}
+			relations = f.appendRelation(fb, r, relations)
 		}
 	}
 	return relations
@@ -875,12 +911,7 @@ func (f *FeaturesByID) fillRelationsFromPath(fb *featureBlock, id uint64, relati
 		var p Path
 		p.Unmarshal(&fb.Namespaces, b)
 		for _, r := range p.Relations {
-			for _, rm := range f.features[b6.FeatureTypeRelation] {
-				if _, ns := r.TypeAndNamespace.Split(); ns == rm.Namespaces[b6.FeatureTypeRelation] {
-					relations = append(relations, f.newRelation(rm, r.Value))
-					break
-				}
-			}
+			relations = f.appendRelation(fb, r, relations)
 		}
 	}
 	return relations
@@ -892,12 +923,7 @@ func (f *FeaturesByID) fillRelationsFromArea(fb *featureBlock, id uint64, relati
 		var a Area
 		a.Unmarshal(&fb.Namespaces, b)
 		for _, r := range a.Relations {
-			for _, rm := range f.features[b6.FeatureTypeRelation] {
-				if _, ns := r.TypeAndNamespace.Split(); ns == rm.Namespaces[b6.FeatureTypeRelation] {
-					relations = append(relations, f.newRelation(rm, r.Value))
-					break
-				}
-			}
+			relations = f.appendRelation(fb, r, relations)
 		}
 	}
 	return relations
@@ -909,12 +935,7 @@ func (f *FeaturesByID) fillRelationsFromRelation(fb *featureBlock, id uint64, re
 		var r Relation
 		r.Unmarshal(b6.FeatureTypePath, &fb.Namespaces, b)
 		for _, rr := range r.Relations {
-			for _, rm := range f.features[b6.FeatureTypeRelation] {
-				if _, ns := rr.TypeAndNamespace.Split(); ns == rm.Namespaces[b6.FeatureTypeRelation] {
-					relations = append(relations, f.newRelation(rm, rr.Value))
-					break
-				}
-			}
+			relations = f.appendRelation(fb, rr, relations)
 		}
 	}
 	return relations
